@@ -1,4 +1,4 @@
-package main
+package core
 
 import (
 	"encoding/hex"
@@ -8,7 +8,7 @@ import (
 
 // Gallina literal helpers. Every value the harness hands to Coq goes through these.
 
-func gStr(s string) string {
+func GStr(s string) string {
 	plain := true
 	for i := 0; i < len(s); i++ {
 		c := s[i]
@@ -23,41 +23,41 @@ func gStr(s string) string {
 	return "(hx \"" + hex.EncodeToString([]byte(s)) + "\")"
 }
 
-func gN(n uint64) string { return fmt.Sprintf("%d%%N", n) }
+func GN(n uint64) string { return fmt.Sprintf("%d%%N", n) }
 
-func gZ(z int64) string {
+func GZ(z int64) string {
 	if z < 0 {
 		return fmt.Sprintf("(%d)%%Z", z)
 	}
 	return fmt.Sprintf("%d%%Z", z)
 }
 
-func gNat(n int) string { return fmt.Sprintf("%d", n) }
+func GNat(n int) string { return fmt.Sprintf("%d", n) }
 
-func gBool(b bool) string {
+func GBool(b bool) string {
 	if b {
 		return "true"
 	}
 	return "false"
 }
 
-func gList(items []string) string {
+func GList(items []string) string {
 	return "[" + strings.Join(items, "; ") + "]"
 }
 
-func gStrList(ss []string) string {
+func GStrList(ss []string) string {
 	out := make([]string, len(ss))
 	for i, s := range ss {
-		out[i] = gStr(s)
+		out[i] = GStr(s)
 	}
-	return gList(out)
+	return GList(out)
 }
 
-func gTuple(items ...string) string {
+func GTuple(items ...string) string {
 	return "(" + strings.Join(items, ", ") + ")"
 }
 
-func gOpt(s *string) string {
+func GOpt(s *string) string {
 	if s == nil {
 		return "None"
 	}
